@@ -10,7 +10,7 @@ import time
 
 VERIF = os.path.dirname(os.path.dirname(os.path.abspath(__file__)))
 REPO = os.environ.get("VERIF_REPO", "/repo")
-WORK = os.path.join(VERIF, ".work")
+WORK = os.environ.get("VERIF_WORK") or os.path.join(VERIF, ".work")  # development aid: a second work dir for runs against a scratch copy
 DRIVER = os.path.join(VERIF, "mirx", "target", "release", "mirx")
 MEMBER_PREFIXES = ("mimium", "state-tree", "state_tree")
 
